@@ -213,8 +213,8 @@ func propC04(c *Ctx) {
 	// who may write the identity fields
 	for _, spec := range []struct {
 		short, typ, field string
-		allowed          func(fn *ssa.Function) bool
-		desc             string
+		allowed           func(fn *ssa.Function) bool
+		desc              string
 	}{
 		{"shovel", "Task", "srcName", optionOrNewTask, "option closures / NewTask"},
 		{"shovel", "Task", "destConfig", optionOrNewTask, "option closures / NewTask"},
